@@ -21,6 +21,7 @@ from concurrent.futures import ThreadPoolExecutor
 VERIF = os.path.dirname(os.path.dirname(os.path.abspath(__file__)))
 REPO = '/repo'
 BASELINE = '129 failed, 1288 passed, 13 errors'
+SUITE = '/venv/bin/python -m ' + 'pytest -q -p no:cacheprovider --continue-on-collection-errors tests 2>&1 | tail -1'
 
 FILES = {
     'eos/calculator/map.py': ['C02', 'C01', 'C09'],
@@ -173,8 +174,10 @@ def worker(args):
             open(os.path.join(wt, path), 'w').write(new)
             _, diff = sh('git diff', cwd=wt)
             rec['diff'] = diff[-1500:]
-            _, suite = sh('/venv/bin/python -m pytest -q -p no:cacheprovider --continue-on-collection-errors tests 2>&1 | tail -1',
-                          cwd=wt)
+            try:
+                _, suite = sh('timeout 600 ' + SUITE, cwd=wt, timeout=700)
+            except subprocess.TimeoutExpired:
+                suite = 'timeout'
             counts = re.sub(r' in [\d.]+s.*', '', suite.strip()).strip('= ')
             if counts != BASELINE:
                 rec['verdict'] = 'killed-by-suite'
@@ -183,7 +186,14 @@ def worker(args):
             env = dict(os.environ, EOS_REPO=wt)
             rec['checks'] = {}
             for chk in FILES[path]:
-                rc, o = sh('./check %s' % chk, cwd=copy_dir, env=env)
+                try:
+                    rc, o = sh('timeout 1500 ./check %s' % chk, cwd=copy_dir, env=env, timeout=1600)
+                except subprocess.TimeoutExpired:
+                    rc, o = 124, ''
+                if rc == 124:
+                    rec['caught_by'] = chk
+                    rec['violation'] = 'check did not terminate (the mutant hangs the real code)'
+                    break
                 rec['checks'][chk] = rc
                 if rc == 1:
                     v = [l for l in o.splitlines() if l.startswith('VIOLATION')]
